@@ -654,7 +654,9 @@ func (c *c01Env) build(s *C01Tx) *c01Built {
 		}
 		o.kind = "vote"
 	case "coinbase-in":
-		ins = append(ins, &c01InDraft{cb: true})
+		// first position: the mapping ties the coinbase entry to mux source 0, so anywhere else
+		// the transaction is malformed for a reason that has nothing to do with value
+		ins = append([]*c01InDraft{{cb: true}}, ins...)
 		o := pickOut(func(o *c01OutDraft) bool { return o.asset == btm })
 		if o == nil {
 			outs = append(outs, &c01OutDraft{kind: "orig", asset: btm, to: s.MB, amt: 1000 + fee})
@@ -786,7 +788,8 @@ func (c *c01Env) judge(where, ctx string, tx *types.Tx, coinbasePos bool, poolFe
 	}
 	in, out := a.get(a.in, c.btm), a.get(a.out, c.btm)
 	if a.coinbase {
-		r.Violate("coinbase-input-outside-coinbase", where, "after %s: a non-coinbase transaction with a coinbase input was %s: %s", ctx, where, a.describe)
+		r.Violate("coinbase-input-outside-coinbase", where, "after %s: the node %s a transaction that is not the block's first and has a coinbase input: %s",
+			ctx, map[string]string{"pool": "admitted to its pool", "chain": "has on its main chain"}[where], a.describe)
 		return
 	}
 	if in.Cmp(out) < 0 {
